@@ -1,7 +1,7 @@
 (* C14 property theorems: statements only, each closed by [exact]. *)
 From Boltons Require Import Lib.Prelude Lib.C14_Text Spec.C14_Spec Model.C14_Model Gen.C14_Gen
   Check.C14_Check Proofs.C14_Table Proofs.C14_Sh Proofs.C14_Cmd Proofs.C14_Int Proofs.C14_Int2 Proofs.C14_Int3
-  Proofs.C14_Gzip Gen.C14_Src Proofs.C14_SrcEq.
+  Proofs.C14_Gzip Gen.C14_Src Proofs.C14_SrcEq Proofs.C14_SrcEqCmd.
 Open Scope N_scope.
 
 (* (T) obligation over the table regenerated from the source on every run:
@@ -34,6 +34,13 @@ Print Assumptions C14_sh_any_table.
 Theorem C14_cmd : forall dd args, no_nul args -> ms_split dd (args2cmd args) = args.
 Proof. exact args2cmd_splits_back. Qed.
 Print Assumptions C14_cmd.
+
+(* (T) the definition regenerated from the CURRENT source text of args2cmd
+   (Gen/C14_Src.v: the result / bs_buf / needquote state machine, result as the list of
+   appended pieces, joined at the end) is the model C14_cmd is about *)
+Theorem C14_source_args2cmd : forall args sep, src_args2cmd args sep = args2cmd args.
+Proof. exact src_args2cmd_eq. Qed.
+Print Assumptions C14_source_args2cmd.
 
 Example C14_sh_inhabited :
   no_nul [[97; 32; 39; 36]; []; [92; 34]] /\
